@@ -436,8 +436,8 @@ Proof.
   - (* Suicide *)
     cbn in Hok. subst ex. apply (rtp_suicide tch a s Hw).
   - (* AddLog *) apply (rtp_addlog ex tch p s Hw).
-  - apply (rtp_refund ex tch (refund s + n) s Hw).
-  - apply (rtp_refund ex tch (refund s - n) s Hw).
+  - apply (rtp_refund ex tch ((refund s + n) mod u64) s Hw).
+  - apply (rtp_refund ex tch (if refund s <? n then refund s else refund s - n) s Hw).
   - apply rtp_aladdr, Hw.
   - apply rtp_alslot, Hw.
   - (* SetTransient *)
